@@ -19,6 +19,10 @@ pub struct Case {
     pub spec: ParamSpec,
     pub weather: Option<WeatherSpec>,
     pub date: NaiveDate,
+    /// boundary-directed probe: Some(p) = additionally drive prayer PRAYERS[p] onto the midnight wrap by bisecting
+    /// its minute offset and evaluate a fan of offsets (+-8 ulps) around the wrap under all four rounding modes
+    #[serde(default)]
+    pub boundary_probe: Option<u8>,
 }
 
 pub fn angle025() -> BoxedStrategy<Option<F>> {
@@ -118,8 +122,8 @@ impl Prop for C07 {
         tier.pick(200_000, 3_000_000)
     }
     fn strategy(&self, _tier: Tier) -> BoxedStrategy<Case> {
-        (full_site(), full_spec(), gen::weather_opt(), gen::date())
-            .prop_map(|(site, spec, weather, date)| Case { site, spec, weather, date })
+        (full_site(), full_spec(), gen::weather_opt(), gen::date(), prop_oneof![30 => Just(None), 1 => (0u8..7).prop_map(Some)])
+            .prop_map(|(site, spec, weather, date, boundary_probe)| Case { site, spec, weather, date, boundary_probe })
             .boxed()
     }
     fn watchdog(&self) -> Option<Duration> {
@@ -241,6 +245,102 @@ pub fn check_case(c: &Case, st: &mut Stats) -> Result<(), Failure> {
     if st.want_sample() {
         st.sample(json!({"case": c, "result": gen::fmt_times(&times)}));
     }
+    if let Some(p) = c.boundary_probe {
+        boundary_probe(c, p as usize % 7, st)?;
+    }
+    Ok(())
+}
+
+/// Drives one prayer onto the 24:00 -> 00:00 wrap by bisecting its minute offset (down to adjacent f64 values), then
+/// evaluates offsets within +-8 ulps of the wrap under every rounding mode: still no panic, still 7 entries, and the
+/// prayer within a minute of midnight. Random generation never lands within picoseconds of the wrap; this does.
+fn boundary_probe(c: &Case, p: usize, st: &mut Stats) -> Result<(), Failure> {
+    // the nearest-good-day search costs up to 60 ms per call at high latitude: keep the probe (~130 calls) cheap
+    if (c.spec.policy == gen::P_NGD_ALL || c.spec.policy == gen::P_NGD_FI_INV) && c.site.lat.0.abs() > 45.0 {
+        st.skip("boundary_probe_skipped_for_costly_policy");
+        return Ok(());
+    }
+    let prayer = PRAYERS[p];
+    let key = if p == 0 { 1 } else { p }; // Imsaak is moved through the Fajr key
+    let loc = c.site.location();
+    let weather = c.weather.map(|w| w.build());
+    let eval = |x: f64, rounding: u8| -> Result<Option<i64>, String> {
+        let mut spec = c.spec.clone();
+        let mut m = spec.minutes.unwrap_or([F(0.0); 7]);
+        m[key] = F(x);
+        spec.minutes = Some(m);
+        spec.rounding = rounding;
+        let params = spec.build();
+        let t = catch(|| islamic_prayer_times::prayer_times_dt(&params, loc, c.date, weather))?;
+        if !has_all_keys(&t) {
+            return Err("missing entries".into());
+        }
+        Ok(t[&prayer].ok().map(|pt| gen::secs(pt.time)))
+    };
+    let fail = |x: f64, r: u8, what: String| {
+        Failure::new(
+            format!("panic:boundary-probe:{}", what.split(':').next().unwrap_or("")),
+            "a 7-entry result, no panic, for a minute offset that puts the time at the midnight wrap",
+            format!("{} with minutes[{}] = {:?} (bits {:#x}), rounding {}", what, gen::PRAYER_NAMES[key], x, x.to_bits(), gen::ROUNDING_NAMES[r as usize]),
+        )
+    };
+    let t0 = match eval(0.0, 0) {
+        Ok(Some(t)) => t,
+        Ok(None) => {
+            st.skip("boundary_probe_prayer_invalid");
+            return Ok(());
+        }
+        Err(e) => return Err(fail(0.0, 0, e)),
+    };
+    // offset (minutes) that moves the time to ~24:00:00, kept inside [-1500, 1500]
+    let x0 = (86400 - t0) as f64 / 60.0;
+    let (mut lo, mut hi) = (x0 - 0.05, x0 + 0.05);
+    let before = |v: Option<i64>| v.map_or(true, |t| t > 43200);
+    match (eval(lo, 0), eval(hi, 0)) {
+        (Ok(a), Ok(b)) if before(a) && !before(b) => {}
+        (Err(e), _) => return Err(fail(lo, 0, e)),
+        (_, Err(e)) => return Err(fail(hi, 0, e)),
+        _ => {
+            st.skip("boundary_probe_bracket_not_found");
+            return Ok(());
+        }
+    }
+    for _ in 0..80 {
+        let mid = 0.5 * (lo + hi);
+        if mid <= lo || mid >= hi {
+            break;
+        }
+        match eval(mid, 0) {
+            Ok(v) => {
+                if before(v) {
+                    lo = mid;
+                } else {
+                    hi = mid;
+                }
+            }
+            Err(e) => return Err(fail(mid, 0, e)),
+        }
+    }
+    let step = |x: f64, k: i64| f64::from_bits((x.to_bits() as i64 + k) as u64);
+    for k in -8i64..=8 {
+        for base in [lo, hi] {
+            let x = step(base, k);
+            for r in 0u8..4 {
+                st.eval();
+                match eval(x, r) {
+                    Ok(Some(t)) => {
+                        let d = gen::circ_diff(t, 0).abs();
+                        if d > 61 {
+                            return Err(fail(x, r, format!("time {} is not within a minute of midnight", hms(t))));
+                        }
+                    }
+                    Ok(None) => return Err(fail(x, r, "entry became Invalid".into())),
+                    Err(e) => return Err(fail(x, r, e)),
+                }
+            }
+        }
+    }
+    st.class("boundary_probe_at_midnight_wrap_done");
     Ok(())
 }
 
